@@ -1,7 +1,7 @@
 """C13 - editing a model invalidates everything derived from the old model.
 
 Small-scope exhaustive histories: ALL operation sequences up to a length bound
-over an alphabet of 15 operations chosen to cross every cache boundary
+over an alphabet of 16 operations chosen to cross every cache boundary
 (LP objective <-> quadratic objective, flip sense, add linear / nonlinear
 constraint, add a list of constraints introducing a new variable, tighten /
 change a bound, solve with auto / SLSQP / trust-constr / linprog / BFGS (a method that ignores bounds), read
@@ -81,7 +81,7 @@ BASES = {
         "bvar": "x[0]",
     },
 }
-OPS = ["min-lin", "min-quad", "max", "flip-same-object", "add-lin", "add-list", "add-nl", "tighten", "rebound", "solve-auto", "solve-SLSQP",
+OPS = ["min-lin", "min-quad", "max", "max-lin", "flip-same-object", "add-lin", "add-list", "add-nl", "tighten", "rebound", "solve-auto", "solve-SLSQP",
        "solve-trust-constr", "solve-linprog", "solve-BFGS", "read"]
 OBS = {"solve-auto", "solve-SLSQP", "solve-trust-constr", "solve-linprog", "solve-BFGS", "read"}
 
@@ -93,7 +93,7 @@ def info(tier):
         "exhaustive": True,
         "rule": "all %d operation sequences of length <= %d over %d operations x 3 base models (the last operation of each sequence "
         "ending in an observation is compared with the twin; prefixes are covered by the shorter sequences); the complete "
-        "family 'objective ; [constraint] ; solve m1 ; edit ; observe' (3x3x5x9x6 per base model; quick runs one third of it "
+        "family 'objective ; [constraint] ; solve m1 ; edit ; observe' (4x3x5x10x6 per base model; quick runs one quarter of it "
         "per seed); random histories of length <= 40 with every observation compared; distinct = distinct (base, sequence) pairs"
         % (n, MAXLEN[tier], len(OPS)),
         "required_cells": [f"base:{b}" for b in BASES] + [f"last:{o}" for o in OPS if o in OBS] + [f"op:{o}" for o in OPS],
@@ -119,11 +119,11 @@ class Model:
 def apply(op, M, P, b):
     """Apply op to both the reference model M and the real problem P."""
     base = M.base
-    if op in ("min-lin", "min-quad", "max"):
-        node = base[{"min-lin": "lin", "min-quad": "quad", "max": "max"}[op]]
-        M.objective, M.sense = node, ("max" if op == "max" else "min")
+    if op in ("min-lin", "min-quad", "max", "max-lin"):
+        node = base[{"min-lin": "lin", "min-quad": "quad", "max": "max", "max-lin": "lin"}[op]]
+        M.objective, M.sense = node, ("max" if op.startswith("max") else "min")
         e = b.S(node)
-        (P.maximize if op == "max" else P.minimize)(e)
+        (P.maximize if op.startswith("max") else P.minimize)(e)
     elif op == "flip-same-object":
         # re-set the *same* objective expression object with the opposite sense (user: prob.maximize(f) after prob.minimize(f))
         if P.objective is not None:
@@ -298,7 +298,7 @@ def run(ctx, rec):
         edits = [o for o in OPS if o not in OBS]
         solves = [o for o in OPS if o.startswith("solve")]
         for base in BASES:
-            for obj in ("min-lin", "min-quad", "max"):
+            for obj in ("min-lin", "min-quad", "max", "max-lin"):
                 for pre in (None, "add-lin", "add-nl"):
                     for m1 in solves:
                         for ed in edits:
@@ -306,7 +306,7 @@ def run(ctx, rec):
                                 i += 1
                                 if not ctx.mine(i):
                                     continue
-                                if ctx.tier == "quick" and (i // 16) % 3 != ctx.seed % 3:
+                                if ctx.tier == "quick" and (i // 16) % 4 != ctx.seed % 4:
                                     continue  # quick: one third of the crossing family per seed
                                 if rec.out_of_time():
                                     rec.inconclusive.append("time budget reached before the crossing family was finished")
